@@ -90,8 +90,8 @@ class SpatialTransform(DeviceProperty, Module, metaclass=ABCMeta):
         self: TSpatialTransform, *args, **kwargs
     ) -> Union[TSpatialTransform, Tuple[tuple, dict]]:
         r"""Get or set data tensor on which transformation is conditioned."""
-        if args:
-            return shallow_copy(self).condition_(*args)
+        if args or kwargs:
+            return shallow_copy(self).condition_(*args, **kwargs)
         return self._args, self._kwargs
 
     def condition_(self: TSpatialTransform, *args, **kwargs) -> TSpatialTransform:
